@@ -85,7 +85,7 @@ Proof.
     rewrite first_in_unfold, E.
     specialize (IH ch Sch).
     destruct (first_in d ch) as [[p j]|].
-    + destruct IH as (V & HI & Hb). sp. rewrite E. repeat split; auto. rewrite Hb. reflexivity.
+    + destruct IH as (V & HI & Hb). sp. rewrite E. repeat split; auto; try (rewrite Hb; reflexivity).
     + sp. unfold here. destruct (0 <? n_count n) eqn:E0.
       * apply Nat.ltb_lt in E0. sp. rewrite (shape_S_internal _ _ _ S). repeat split; auto; try lia.
         rewrite (nth_flat n 0 ch E), IH. reflexivity.
@@ -114,20 +114,20 @@ Proof.
     + destruct (shape_internal _ _ _ S Lf) as [d' ->]. pose proof S as (_ & _ & L & _).
       destruct (shape_child_ex _ _ _ j S V) as (chj & Ej & _).
       destruct (shape_child_ex _ _ _ (Datatypes.S j) S H) as (ch & E & Sch). rewrite E.
-      assert (B0 : before [] n j ++ [x] = pre n (Datatypes.S j)).
-      { sp. rewrite Lf. rewrite (pre_snoc n j chj L Ej H). rewrite (nth_flat n j chj Ej), Nx, <- app_assoc. reflexivity. }
+      assert (B0 : (pre n j ++ nth j (map flatten (n_children n)) []) ++ [x] = pre n (Datatypes.S j)).
+      { rewrite (pre_snoc n j chj L Ej H). rewrite (nth_flat n j chj Ej), Nx, <- app_assoc. reflexivity. }
       pose proof (first_in_spec (Nat.pred (Datatypes.S d')) ch Sch) as F. simpl Nat.pred in *.
       destruct (first_in d' ch) as [[q i]|].
-      * destruct F as (Vq & Hq & Bq). sp. rewrite E. repeat split; auto.
-        rewrite Bq, app_nil_r. rewrite <- B0. sp. rewrite Lf. reflexivity.
+      * destruct F as (Vq & Hq & Bq). sp. rewrite ?Lf, ?E. repeat split; auto.
+        rewrite Bq, app_nil_r. symmetry. exact B0.
       * sp. unfold here. destruct (Datatypes.S j <? n_count n) eqn:E1.
-        -- apply Nat.ltb_lt in E1. sp. rewrite Lf. repeat split; auto; try lia.
-           rewrite (nth_flat n _ ch E), F, app_nil_r. rewrite <- B0. sp. rewrite Lf. reflexivity.
-        -- apply Nat.ltb_ge in E1. rewrite B0. rewrite (flatten_split n _ ch L E), F, post_end by lia.
+        -- apply Nat.ltb_lt in E1. sp. rewrite ?Lf. repeat split; auto; try lia.
+           rewrite (nth_flat n _ ch E), F, app_nil_r. symmetry. exact B0.
+        -- apply Nat.ltb_ge in E1. sp. rewrite ?Lf. rewrite B0. rewrite (flatten_split n _ ch L E), F, post_end by lia.
            rewrite app_nil_r. reflexivity.
   - destruct (valid_cons _ _ _ _ _ V) as (d' & ch & -> & E & V'). sp in H. rewrite E in H.
     pose proof S as (_ & _ & L & _). pose proof (shape_child _ _ _ _ _ S E) as Sch.
-    destruct (IH d' ch Sch V' H) as (x & Ex & R). exists x. sp. rewrite E. split; [exact Ex|].
+    destruct (IH d' ch Sch V' H) as (x & Ex & R). exists x. sp. cbn [next_in]. simpl Nat.pred. rewrite E. split; [exact Ex|].
     destruct (next_in d' p ch j) as [[q i]|].
     + destruct R as (Vq & Hq & Bq). sp. rewrite E. repeat split; auto. rewrite Bq, app_assoc. reflexivity.
     + sp. unfold here. destruct (c <? n_count n) eqn:E1.
@@ -167,7 +167,7 @@ Proof.
         destruct (nth_error_ex (n_items n) c Hc) as [x Ex].
         destruct (shape_child_ex _ _ _ c S (Nat.lt_le_incl _ _ Hc)) as (chc & Ecc & _).
         repeat split; auto; try lia. exists x. split; auto.
-        rewrite Fl, IH, app_nil_r. rewrite Ec in *. rewrite (pre_snoc n c chc L Ecc Hc).
+        rewrite Fl, IH, app_nil_r. rewrite <- Ec in L. rewrite (pre_snoc n c chc L Ecc Hc).
         rewrite (nth_flat n c chc Ecc), (nth_error_nth' _ _ _ 0%Z Ex), <- app_assoc. reflexivity.
 Qed.
 
@@ -180,7 +180,7 @@ Lemma prev_in_spec d p n j :
 Proof.
   revert d n; induction p as [|c p IH]; intros d n S V.
   - sp in V. cbn [prev_in]. destruct (is_leaf n) eqn:Lf.
-    + unfold here_prev. destruct j as [|j]; simpl; rewrite Lf; auto.
+    + unfold here_prev. destruct j as [|j]; sp; rewrite Lf; auto.
       assert (Hj : j < length (n_items n)) by (unfold n_count in V; lia).
       destruct (nth_error_ex _ _ Hj) as [x Ex]. repeat split; auto; try lia.
       exists x. split; auto. rewrite firstn_S_nth by exact Hj. rewrite (nth_error_nth' _ _ _ 0%Z Ex). reflexivity.
